@@ -518,13 +518,13 @@ class Array(metaclass=MetaArray):
                             info.extra.get(idx),
                         )
         else:  # there is a value for initialization
-            if not hasattr(value, "shape"):  # not nplike
-                value = np.asarray(value, dtype=object)
+            # nested lists are indexed item by item: converting them to an
+            # object ndarray would split tuple items such as (typename, data)
             if cls._is_static_type:
                 ioffset = offset + cls._data_offset
                 for idx in iter_index(info.shape, cls._order):
                     cls._itemtype._to_buffer(
-                        buffer, ioffset, value[idx], info=None
+                        buffer, ioffset, get_item(value, idx), info=None
                     )
                     ioffset += cls._itemtype._size
             else:
@@ -532,7 +532,7 @@ class Array(metaclass=MetaArray):
                     cls._itemtype._to_buffer(
                         buffer,
                         offset + info.offsets[idx],
-                        value[idx],
+                        get_item(value, idx),
                         info.extra.get(idx),
                     )
 
